@@ -46,6 +46,9 @@ type Exec struct {
 	wlogs    []*writeLog
 	written  map[string]bool
 	revealed map[string]bool
+	inCallback int
+	loopHavoc  bool
+	localCells map[string][]*Term
 	tagFacts map[int]*Term // interface tag term -> literal type tag known from the precondition
 
 	pendingAssume []*Term
@@ -104,6 +107,8 @@ type Frame struct {
 	curBlk *ssa.BasicBlock
 	callPos token.Pos
 	parent *Frame
+	callOrd map[ssa.Instruction]int
+	closures []*FuncV // closures created in this frame (for callback effects)
 	guard  *Term // guard of the block being executed
 	guard0 *Term // guard at function entry
 }
@@ -626,6 +631,11 @@ func (ex *Exec) buildNames(fr *Frame) {
 					_ = id
 				}
 				if obj := x.Object(); obj != nil {
+					if u, isLoad := x.X.(*ssa.UnOp); isLoad && !x.IsAddr && u.Op == token.MUL {
+						// a read of an address-taken variable: the loaded value goes stale, the
+						// variable is resolved through its cell (Alloc / free variable) instead
+						continue
+					}
 					fr.names[obj.Name()] = append(fr.names[obj.Name()], nameDef{b, i, x.X, x.IsAddr})
 				}
 			case *ssa.Phi:
@@ -643,6 +653,41 @@ func (ex *Exec) buildNames(fr *Frame) {
 
 // lookupLocal resolves a source-level variable name at the top of block at (after its phis).
 func (ex *Exec) lookupLocal(fr *Frame, name string, at *ssa.BasicBlock, st *State) (Val, types.Type, bool) {
+	return ex.lookupLocalAt(fr, name, at, -1, st)
+}
+
+// lookupLocalAt resolves a source-level variable name just before instruction atIdx of block at
+// (atIdx < 0: at the top of the block, after its phis).
+func (ex *Exec) lookupLocalAt(fr *Frame, name string, at *ssa.BasicBlock, atIdx int, st *State) (Val, types.Type, bool) {
+	defs := fr.names[name]
+	var best *nameDef
+	later := func(a, b *nameDef) bool { // is a later than b?
+		if a.blk == b.blk {
+			return a.idx > b.idx
+		}
+		return b.blk.Dominates(a.blk)
+	}
+	for i := range defs {
+		d := &defs[i]
+		_, isPhi := d.val.(*ssa.Phi)
+		ok := false
+		if d.blk == at {
+			ok = isPhi || d.idx < atIdx
+		} else {
+			ok = d.blk.Dominates(at)
+		}
+		if ok && (best == nil || later(d, best)) {
+			best = d
+		}
+	}
+	if best != nil {
+		v := ex.val(fr, best.val)
+		if best.isAddr {
+			pt := best.val.Type().(*types.Pointer).Elem()
+			return ex.loadPtr(st, pt, v.(*Term)), pt, true
+		}
+		return v, best.val.Type(), true
+	}
 	for _, p := range fr.fn.Params {
 		if p.Name() == name {
 			return ex.val(fr, p), p.Type(), true
@@ -655,33 +700,7 @@ func (ex *Exec) lookupLocal(fr *Frame, name string, at *ssa.BasicBlock, st *Stat
 			return ex.loadPtr(st, pt, ex.term(fr, p)), pt, true
 		}
 	}
-	defs := fr.names[name]
-	var best *nameDef
-	for i := range defs {
-		d := &defs[i]
-		_, isPhi := d.val.(*ssa.Phi)
-		if d.blk == at {
-			if isPhi {
-				best = d
-				break
-			}
-			continue // defined later in this block
-		}
-		if d.blk.Dominates(at) {
-			if best == nil || best.blk.Dominates(d.blk) && (best.blk != d.blk || best.idx < d.idx) {
-				best = d
-			}
-		}
-	}
-	if best == nil {
-		return nil, nil, false
-	}
-	v := ex.val(fr, best.val)
-	if best.isAddr {
-		pt := best.val.Type().(*types.Pointer).Elem()
-		return ex.loadPtr(st, pt, v.(*Term)), pt, true
-	}
-	return v, best.val.Type(), true
+	return nil, nil, false
 }
 
 // ------------------------------------------------------------------ loops
@@ -768,7 +787,9 @@ func (ex *Exec) loopHead(fr *Frame, h *ssa.BasicBlock, cur *State, pc *Term, phi
 			continue
 		}
 		if whole || !strings.HasPrefix(srt, "(Array Ref") {
+			ex.loopHavoc = true
 			ex.havocComp(cur, name)
+			ex.loopHavoc = false
 			continue
 		}
 		var ids []int
@@ -834,7 +855,15 @@ func (ex *Exec) addLoopObl(fr *Frame, h *ssa.BasicBlock, lc *loopCand, kind stri
 	if lc.c.User != nil {
 		tags = lc.c.User.Tags
 	}
-	o := &Obligation{Name: fmt.Sprintf("%s/%s[%s]", ex.loopKey(fr, h), kind, lc.c.Src), Fn: ex.P.relName(ex.root), Kind: kind, Pos: ex.posOf(h.Instrs[0].Pos()), Desc: lc.c.Src, PC: pc, Goal: goal, Tags: tags, Clause: lc.c.User}
+	pos := h.Instrs[0].Pos()
+	if fr.curBlk != nil && kind == "inv-pres" {
+		for _, in := range fr.curBlk.Instrs {
+			if in.Pos().IsValid() {
+				pos = in.Pos()
+			}
+		}
+	}
+	o := &Obligation{Name: fmt.Sprintf("%s/%s[%s]", ex.loopKey(fr, h), kind, lc.c.Src), Fn: ex.P.relName(ex.root), Kind: kind, Pos: ex.posOf(pos), Desc: lc.c.Src, PC: pc, Goal: goal, Tags: tags, Clause: lc.c.User}
 	ex.houdini = append(ex.houdini, &houdiniObl{o, lc.c})
 }
 
